@@ -55,6 +55,19 @@ Theorem referenced_set_schedule_free : forall es1 es2 s1 s2,
 Proof. exact schedule_free_lemma. Qed.
 Print Assumptions referenced_set_schedule_free.
 
+(* The model's writer thread writes a pack file (WriteP) before it adds the pack to the indexer
+   (IndexP); this is the order of FileWriterHandle::process / ::index in the source. *)
+Theorem source_writes_pack_before_indexing : writer_writes_before_index = true.
+Proof. reflexivity. Qed.
+Print Assumptions source_writes_pack_before_indexing.
+
+(* Hence every pack the indexer holds has been written to the backend, at every moment of every
+   run. *)
+Theorem indexed_pack_is_written : forall es s,
+  run init es = Some s -> forall t pk, In (t, pk) (idx s) -> In (t, pk) (written s).
+Proof. exact indexed_written_lemma. Qed.
+Print Assumptions indexed_pack_is_written.
+
 (* No deadlock: in every state that is not final some internal event is enabled (the
    writer queue has positive capacity in the source) ... *)
 Theorem linear_pipeline_progress : forall s,
